@@ -112,7 +112,7 @@ class TlcResult:
 
 
 def tlc(tag, module, cfg, workers=8, timeout=900, extra=None, env=None, java_opts=None,
-        allow_timeout=False):
+        allow_timeout=False, moddir=None):
     """Run TLC on spec/mc/<module>.tla with spec/mc/<cfg>; extract REPLAY lines to ndjson."""
     os.makedirs(os.path.join(WORK, "tlc"), exist_ok=True)
     meta = os.path.join(WORK, "tlc", tag)
@@ -122,7 +122,7 @@ def tlc(tag, module, cfg, workers=8, timeout=900, extra=None, env=None, java_opt
     cmd = ["java", "-XX:+UseParallelGC"] + jopts + [
         "-cp", TLA_CP + ":" + SPEC + ":" + MC, "tlc2.TLC",
         "-metadir", meta, "-noGenerateSpecTE", "-workers", str(workers),
-        "-config", os.path.join(MC, cfg)] + (extra or []) + [os.path.join(MC, module + ".tla")]
+        "-config", os.path.join(moddir or MC, cfg)] + (extra or []) + [os.path.join(moddir or MC, module + ".tla")]
     e = dict(os.environ)
     if env:
         e.update(env)
@@ -133,7 +133,7 @@ def tlc(tag, module, cfg, workers=8, timeout=900, extra=None, env=None, java_opt
     with open(out, "wb") as fo:
         try:
             p = subprocess.run(cmd, stdout=fo, stderr=subprocess.STDOUT, timeout=timeout, env=e,
-                               cwd=MC)
+                               cwd=moddir or MC)
             rc = p.returncode
         except subprocess.TimeoutExpired:
             rc = None
